@@ -328,6 +328,11 @@ class Check:
         rc, output = run_harness(self.harness(), test, env=e, timeout=timeout, cwd=self.wd)
         log("[%s] harness %s rc=%s %.1fs" % (self.prop, test, rc, time.time() - t))
         self.last_output = output
+        try:
+            with open(os.path.join(self.wd, "harness_%s.out" % re.sub(r"\W", "_", test)), "w") as fh:
+                fh.write(output or "")
+        except OSError:
+            pass
         if rc is None:
             raise Machinery("harness %s timed out after %ds\n%s" % (test, timeout, output[-3000:]))
         if rc != 0 and not allow_fail:
